@@ -118,6 +118,11 @@ func (p *Machine) SkipBytes(count int32) {
 // initial escape byte of 12".
 const escapeByte = 12
 
+// maxOps is the maximum number of operators interpreted by one call
+// to Run, protecting against malicious fonts (same value as HB_CFF_MAX_OPS
+// in harfbuzz).
+const maxOps = 10000
+
 // Run runs the instructions in the PostScript context asked by `handler`.
 // `localSubrs` and `globalSubrs` contains the subroutines that may be called in the instructions.
 func (p *Machine) Run(instructions []byte, localSubrs, globalSubrs [][]byte, handler OperatorHandler) error {
@@ -128,6 +133,9 @@ func (p *Machine) Run(instructions []byte, localSubrs, globalSubrs [][]byte, han
 	p.ArgStack.Top = 0
 	p.callStack.top = 0
 
+	// the nesting limit of subroutines does not bound the number of calls:
+	// a subroutine may call the next one many times
+	ops := 0
 	for {
 		if len(p.instructions) == 0 {
 			if p.callStack.top == 0 {
@@ -149,6 +157,9 @@ func (p *Machine) Run(instructions []byte, localSubrs, globalSubrs [][]byte, han
 		}
 
 		// Otherwise, execute an operator.
+		if ops++; ops > maxOps {
+			return errors.New("maximum number of operators reached")
+		}
 		b := p.instructions[0]
 		p.instructions = p.instructions[1:]
 
